@@ -565,7 +565,18 @@ def read_one(d, n: int, hint: int = 0):
         if not isinstance(o, PDFStream):
             return ("notstream", type(o).__name__)
         BUDGET.arm(hint + len(o.rawdata or b""))
-        return ("ok", o.get_data())
+        first = o.get_data()
+        # the same (cached) object is fetched and read a second time: it must hand back the same bytes
+        try:
+            o2 = d.getobj(n)
+            second = o2.get_data()
+        except WorkBudgetExceeded:
+            raise
+        except Exception as e:  # noqa
+            return ("exc", "second-read:" + _exc_name(e))
+        if second != first or o2 is not o:
+            return ("second-read-differs", second if second != first else b"<not the cached object>")
+        return ("ok", first)
     except WorkBudgetExceeded:
         return ("exc", "nontermination:work budget exceeded")
     except Exception as e:  # noqa
@@ -585,7 +596,17 @@ def impl_stage(f: str, inp: bytes, parms: Optional[Dict[str, Any]]):
     attrs: Dict[str, Any] = {"Filter": LIT(FULL[f])}
     if parms is not None:
         attrs["DecodeParms"] = dict(parms)
-    fn = lambda: PDFStream(attrs, inp).get_data()  # noqa: E731
+    def fn():
+        ps = PDFStream(attrs, inp)
+        first = ps.get_data()
+        try:
+            second = ps.get_data()  # second read of the same object
+        except Exception as e:  # noqa
+            raise type(e)("second get_data(): " + str(e)).with_traceback(e.__traceback__)
+        if second != first:
+            raise ValueError("second get_data() differs from the first")
+        return first
+
     fn._nbytes = len(inp)  # type: ignore[attr-defined]
     return guarded(fn)
 
@@ -683,7 +704,10 @@ META = {
         "(splits 'stream' CR|LF) and 1; paeth: all (left, above, upper-left) triples over 8 boundary values, 1 and 2 colours; png: 42 geometries (colours "
         "1,3,4 x columns 1,2,3,5,8,9,16 x bits 8,1) plus pixel sizes that are not 1, 3 or 4 whole bytes (quick: 1-bit colours 2,9,12,17 x columns "
         "1,3,8 and 8-bit colours 2; thorough: 1-bit colours 2..25 incl. 5,7,8,10,15,16,23,24,25 x columns 1,2,3,5,8,9 and 8-bit colours 2,5) x all 155 assignments of row filter types 0-4 to <=3 rows, directly and through a "
-        "Flate (thorough: also LZW) stream; tiff: colours 1-4 x columns 1,2,3,5,8,16 x 1,2,3,4,7 rows (and 2x2, 3x3, 4x4 geometries inside chains).  history: for every filter and option set, every ordered pair (p, q) of 5 payloads decoded as p, q, p in one process (function "
+        "Flate (thorough: also LZW) stream; tiff: colours 1-4 x columns 1,2,3,5,8,16 x 1,2,3,4,7 rows (and 2x2, 3x3, 4x4 geometries inside chains).  every stream read through a document is fetched and read a second time (same cached object, same bytes; "
+        "incl. empty payloads with and without filters); objstm: files with cross-reference stream + object stream whose members are the "
+        "integers used as indirect /Length (and /Columns) of two streams, as the last two/three members, swapped, before/after a name, "
+        "x filter none/Flate/ASCIIHex/LZW x 5 payload pairs x BUFSIZ 4096/5; history: for every filter and option set, every ordered pair (p, q) of 5 payloads decoded as p, q, p in one process (function "
         "and PDFStream), each result must equal what the datum gives alone; a85tail: for final groups of 1-4 bytes every reachable last "
         "ASCII85 digit (45/85/85/85, incl. '>' and '<') x 3 prefixes x EOD spellings ~>, ~>LF, LF~> (and the lenient forms '~ >', '~', none that "
         "ascii85decode documents).  LZW clear-table codes: at the start only, every 64 codes, before EOD, every 255 codes "
@@ -736,6 +760,8 @@ def shards(tier):
         out.append(("history", f))
     for n in (1, 2, 3, 4):
         out.append(("a85tail", n))
+    for fi in range(4):
+        out.append(("objstm", fi))
     for k in range(len(PAETH_VALUES)):
         out.append(("paeth", k))
     return out
@@ -856,7 +882,12 @@ def judge_streams(st, db: DocB, entries: List[Dict[str, Any]], bufsizes: Sequenc
         if not bad:
             continue
         b, r = bad[0]
-        cause = "nontermination:" + ">".join(e["chain"]) if (r[0] == "exc" and str(r[1]).startswith("nontermination")) else diagnose_stages(e["stages"])
+        if r[0] == "second-read-differs" or (r[0] == "exc" and str(r[1]).startswith("second-read:")):
+            cause = "second-read:" + ("empty-data" if not p else "non-empty-data")
+        elif r[0] == "exc" and str(r[1]).startswith("nontermination"):
+            cause = "nontermination:" + ">".join(e["chain"])
+        else:
+            cause = diagnose_stages(e["stages"])
         if cause is None:
             cause = e.get("container_cause") or ("pipeline:" + ">".join(e["chain"]) if e["chain"] else "container:default")
             if callable(cause):
@@ -1150,6 +1181,81 @@ def run_paeth(shard, tier, st):
                                payload, r, f"Paeth with left={a} above={b} upper-left={c}: apply_png_predictor gives {r!r}, expected {payload!r}")
 
 
+# ---- indirect Length / DecodeParms values that live in an object stream
+def run_objstm(shard, tier, st):
+    """Files with a cross-reference stream and an object stream; the integers used as indirect /Length (and /Columns) of the
+    filtered streams are members of the object stream, in every position incl. the last one, two and three members."""
+    from mc.pdfgen import Doc, Stream as GStream
+
+    fi = shard[1]
+    f = (None, "Fl", "AHx", "LZW")[fi]
+    pls = [payload_by_name(n) for n in ("has-endstream", "all256", "one", "empty")]
+    st.states += 1
+    for (i, j) in [(0, 1), (1, 0), (0, 2), (2, 3), (1, 1)]:
+        for layout in ("ints-last", "ints-last-swapped", "name-then-ints", "ints-then-name", "three-ints"):
+            for bufsiz in (4096, 5):
+                doc = Doc()
+                cat, pages = doc.reserve(), doc.reserve()
+                doc.set(cat, {"Type": Name("Catalog"), "Pages": pages})
+                doc.set(pages, {"Type": Name("Pages"), "Kids": [], "Count": 0})
+                payloads = [pls[i], pls[j]]
+                pred = layout == "three-ints" and f in ("Fl", "LZW")
+                srefs = [doc.reserve(), doc.reserve()]
+                packed: List[Any] = []
+                lrefs = [doc.reserve(), doc.reserve()]
+                order = [1, 0] if layout == "ints-last-swapped" else [0, 1]
+                nm = doc.reserve() if layout in ("name-then-ints", "ints-then-name") else None
+                col = doc.reserve() if layout == "three-ints" else None
+                encs = []
+                for k in (0, 1):
+                    pl = payloads[k]
+                    pr = Pred("png", 1, 1, 8, rows=[2, 1, 4], explicit=True) if (pred and pl) else None
+                    data, stages = encode_chain((f,) if f else (), pl, [DEFAULT_OPTS[f]] if f else [], [pr] if f else [])
+                    d: Dict[str, Any] = {}
+                    if f:
+                        d["Filter"] = Name(FULL[f])
+                        if pr:
+                            pp = pr.parms()
+                            pp["Columns"] = col  # indirect, held by the object stream
+                            d["DecodeParms"] = pp
+                    doc.set(srefs[k], GStream(d, data, length=lrefs[k]))
+                    encs.append((data, stages))
+                # object numbers decide the order inside the object stream: renumber the integers accordingly
+                members: List[Tuple[Any, Any]] = [(lrefs[k], len(encs[k][0])) for k in order]
+                if col is not None:
+                    members.append((col, 1))
+                if nm is not None:
+                    members = ([(nm, Name("Marker"))] + members) if layout == "name-then-ints" else (members + [(nm, Name("Marker"))])
+                # pdfgen packs in ascending object number: give the members ascending fresh numbers in the wanted order
+                base = max(r.num for r in srefs + lrefs + ([nm] if nm else []) + ([col] if col else [])) + 1
+                remap = {}
+                for off, (ref, val) in enumerate(members):
+                    remap[ref.num] = base + off
+                    doc.objs.pop(ref.num, None)
+                for off, (ref, val) in enumerate(members):
+                    doc.objs[base + off] = (0, val)
+                    ref.num = base + off  # the Ref objects inside the stream dictionaries follow
+                raw = doc.write(cat, xref="stream", objstm=[base + k for k in range(len(members))])
+                st.states += 1
+                st.transitions += 1
+                dd = open_doc(raw, bufsiz)
+                for k in (0, 1):
+                    r = read_one(dd, srefs[k].num, len(payloads[k]) + len(encs[k][0]))
+                    st.case(None, nontrivial=bool(payloads[k]), outcome=h64(r))
+                    st.traces += 1
+                    if r != ("ok", payloads[k]):
+                        cause = diagnose_stages(encs[k][1])
+                        if r[0] == "second-read-differs" or (r[0] == "exc" and str(r[1]).startswith("second-read:")):
+                            cause = "second-read:" + ("empty-data" if not payloads[k] else "non-empty-data")
+                        elif cause is None:
+                            cause = "objstm-held-parameters:" + layout
+                        report(st, cause, {"family": "objstm", "doc": raw, "objnum": srefs[k].num, "bufsiz": bufsiz, "payload": payloads[k],
+                                           "chain": [f] if f else [], "desc": {"layout": layout, "filter": f, "lengths": [len(e[0]) for e in encs]}}, payloads[k], r,
+                               f"stream whose /Length{' and /Columns' if pred else ''} is an integer held by an object stream (layout {layout}, filter {f}): get_data gives "
+                               f"{r[0]}:{_short(r[1]) if isinstance(r[1], (bytes, bytearray)) else r[1]}, payload {_short(payloads[k])}")
+    st.sample({"family": "objstm", "filter": f, "layouts": 5})
+
+
 # ---- history: decoders must not carry state from one datum to the next
 HISTORY_PAYLOADS = ["one", "all256", "phrases700", "runs", "zeros4"]
 
@@ -1256,6 +1362,8 @@ def _run_shard(shard, tier, st):
         return run_history(shard, tier, st)
     if fam == "a85tail":
         return run_a85tail(shard, tier, st)
+    if fam == "objstm":
+        return run_objstm(shard, tier, st)
     if fam == "direct":
         run_direct(shard, tier, st)
     elif fam == "chain":
